@@ -12,7 +12,7 @@ import (
 
 func init() {
 	register("C13", propMeta{
-		Explanation:  "Decides the soundness of the in-place metadata patch used by StoreRepository.Update: (R1) for every call patchJSONNumericField(data, K, v) the locator of key K must be structural (a JSON tokenizer) or, if it is a first-occurrence byte search, no free-text field (string, map, any, nested struct with strings) may be marshalled before K in sop.StoreInfo, otherwise store names/descriptions containing the quoted key redirect the patch onto another field; (R2) only the fields tagged by the constants fieldCount/fieldTimestamp are patched, the constants equal the JSON tags of StoreInfo.Count/Timestamp, those fields are integers, each patched value comes from the same-named field, and the fast path is taken only when NeedsMetaDataSave is false (otherwise the full struct is re-marshalled); (R3) the count written is the freshly read count plus the caller's delta, under the store lock. (R4) the patcher's result is the concatenation data[:start] + rendering of the new value + data[end:] with end = the tokenizer's offset after the value and start = end - len(raw value); a buffer may be overwritten in place only where len(new) == len(old) was tested.",
+		Explanation:  "Decides the soundness of the in-place metadata patch used by StoreRepository.Update: (R1) for every call patchJSONNumericField(data, K, v) the locator of key K must be structural (a JSON tokenizer) or, if it is a first-occurrence byte search, no free-text field (string, map, any, nested struct with strings) may be marshalled before K in sop.StoreInfo, otherwise store names/descriptions containing the quoted key redirect the patch onto another field; (R2) only the fields tagged by the constants fieldCount/fieldTimestamp are patched, the constants equal the JSON tags of StoreInfo.Count/Timestamp, those fields are integers, each patched value comes from the same-named field, and the fast path is taken only when NeedsMetaDataSave is false (otherwise the full struct is re-marshalled); (R3) the count written is the freshly read count plus the caller's delta, under the store lock. (R4) the patcher's result is the concatenation data[:start] + rendering of the new value + data[end:] with end = the tokenizer's offset after the value and start = end - len(raw value); a buffer may be overwritten in place only where len(new) == len(old) was tested. (R5) after every storeinfo write of Update and its undo closure the cache is refreshed with the record that was written (shared with C20.R4).",
 		DoesNotCover: "That encoding/json round-trips every option value of StoreInfo; concurrent writers outside the L2 lock.",
 	}, runC13)
 }
